@@ -234,6 +234,96 @@ def match_known(known, prop, case, rust, model, verdict):
     return None
 
 
+INTERIOR = re.compile(r"\b(Cell|RefCell|UnsafeCell|OnceCell|OnceLock|Mutex|RwLock|Atomic[A-Za-z0-9]+|LazyCell|LazyLock)\b")
+
+
+def rust_items(text, names):
+    """bodies of `struct X {…}` / `enum X {…}` items by name (brace matching)"""
+    text = re.sub(r"//[^\n]*", "", text)
+    out = {}
+    for m in re.finditer(r"\b(?:pub(?:\([a-z:]+\))?\s+)?(struct|enum)\s+([A-Za-z0-9_]+)[^;{]*\{", text):
+        name = m.group(2)
+        if name not in names:
+            continue
+        i = m.end()
+        depth = 1
+        while i < len(text) and depth:
+            depth += {"{": 1, "}": -1}.get(text[i], 0)
+            i += 1
+        out[name] = text[m.end():i - 1]
+    return out
+
+
+def c10_source_scan(tier, seed):
+    """Structural preconditions the C10 theorems rest on, re-checked on the current source:
+    no interior mutability inside the frozen schema types (so shared read-only use from several
+    threads is use of an immutable value), and the container reader declares the state that
+    points into the schema BEFORE the Arc that keeps it alive (fields drop in declaration order)."""
+    base = "/repo/serde_avro_fast/src"
+    probs, info = [], {}
+    def rd(p):
+        return open(os.path.join(base, p)).read()
+    sr = rd("schema/self_referential.rs")
+    lk = rd("schema/union_variants_per_type_lookup.rs")
+    md = rd("schema/mod.rs")
+    items = {}
+    items.update(rust_items(sr, {"Schema", "NodeRef", "SchemaNode", "Union", "Record", "RecordField", "Enum", "Decimal", "DecimalRepr"}))
+    items.update(rust_items(lk, {"PerTypeLookup"}))
+    items.update(rust_items(md, {"Fixed", "Name"}))
+    info["types_scanned"] = sorted(items)
+    for need in ["Schema", "SchemaNode", "Union", "Record", "PerTypeLookup", "NodeRef"]:
+        if need not in items:
+            probs.append(f"C10 source scan: type {need} not found (anchor moved?)")
+    for name, body in items.items():
+        body_nc = re.sub(r"//[^\n]*", "", body)
+        m = INTERIOR.search(body_nc)
+        if m:
+            probs.append(f"C10 source scan: interior mutability ({m.group(1)}) inside frozen schema type {name}: "
+                         "C10_threads_commute no longer applies")
+    rdr = rust_items(rd("object_container_file_encoding/reader/mod.rs"), {"Reader"}).get("Reader")
+    if rdr is None:
+        probs.append("C10 source scan: struct Reader not found")
+    else:
+        fields = re.findall(r"^\s*(?:pub(?:\([a-z:]+\))?\s+)?([a-z_]+)\s*:", re.sub(r"//[^\n]*", "", rdr), re.M)
+        info["reader_fields"] = fields
+        if "reader_state" not in fields or "schema" not in fields or fields.index("reader_state") > fields.index("schema"):
+            probs.append("C10 source scan: Reader must declare reader_state before schema (drop order); "
+                         "the model's dropReader order (C10_no_use_after_free) no longer matches, cf. C10_wrong_order_is_unsafe")
+    return info, probs, []
+
+
+def c10_miri(tier, seed):
+    """thorough tier: the api histories under Miri (default features: the C codecs are FFI)."""
+    if tier != "thorough":
+        return {"skipped": "quick tier"}, [], []
+    d = os.path.join(ROOT, "miri_harness")
+    if not os.path.exists(os.path.join(d, "Cargo.lock")):
+        subprocess.run(["cp", "/repo/Cargo.lock", os.path.join(d, "Cargo.lock")])
+    n = int(os.environ.get("VERIF_MIRI_HISTORIES", "24"))
+    try:
+        p = subprocess.run(["cargo", "+nightly", "miri", "run", "--offline", "--", "run-gen", str(seed), str(n)],
+                           cwd=d, stdout=subprocess.PIPE, stderr=subprocess.PIPE, env=ENV, timeout=3600)
+    except subprocess.TimeoutExpired:
+        return {"timeout": True}, ["Miri run timed out"], []
+    lines = [l for l in p.stdout.decode(errors="replace").split("\n") if " => " in l]
+    info = {"histories_completed": len(lines), "requested": n, "exit": p.returncode}
+    viol = []
+    if p.returncode != 0:
+        err = p.stderr.decode(errors="replace")
+        m = re.search(r"error: (Undefined Behavior[^\n]*|[^\n]*)", err)
+        # the history that was running when Miri stopped is the next one
+        rcg = subprocess.run([os.path.join(d, "target", "debug", "miri_harness"), "gen", str(seed), str(n)],
+                             stdout=subprocess.PIPE, env=ENV)
+        cases = [l for l in rcg.stdout.decode().split("\n") if l]
+        culprit = cases[len(lines)] if len(lines) < len(cases) else "(unknown)"
+        viol.append({"stream": "miri", "kind": "oracle", "detail": "Miri: " + (m.group(1) if m else "error"),
+                     "case": culprit, "rust": "abort", "model": ""})
+    return info, [], viol
+
+
+EXTRA_STEPS = {"c10_source_scan": c10_source_scan, "c10_miri": c10_miri}
+
+
 def main():
     ap = argparse.ArgumentParser()
     ap.add_argument("prop")
@@ -285,6 +375,15 @@ def main():
                 unchecked.append("leanchecker rejected " + module + ": " + out.decode(errors="replace")[-300:])
 
     discharged = sum(1 for t in theorems if ax.get(t) is not None and all(a in ALLOWED_AXIOMS for a in ax[t])) if lake_ok else 0
+
+    # ---- property-specific extra steps ----
+    extra_info = {}
+    for name in cfg.get("extra", []):
+        fn = EXTRA_STEPS[name]
+        info, probs, viol = fn(tier, seed)
+        extra_info[name] = info
+        unchecked.extend(probs)
+        violations.extend(viol)
 
     # ---- correspondence + oracle ----
     known = load_known()
@@ -392,6 +491,7 @@ def main():
             "distribution": dist,
             "streams": stream_stats,
             "known_findings_seen": {k: v["count"] for k, v in known_hits.items()},
+            "extra_steps": extra_info,
             "unchecked": unchecked,
         },
         "assumptions": cfg.get("assumptions", []),
